@@ -36,6 +36,10 @@ Lemma dump_hex_of_read_all decompress o fuel file es :
   read_all decompress fuel file = Ok es -> dump_hex decompress o fuel file = Some (map dump_line_hex (filter (dump_keep o) es)).
 Proof. intros H. unfold dump_hex. rewrite H. reflexivity. Qed.
 
+Lemma dump_text_of_read_all decompress o fuel file es :
+  read_all decompress fuel file = Ok es -> dump_text decompress o fuel file = Some (map dump_line_text (filter (dump_keep o) es)).
+Proof. intros H. unfold dump_text. rewrite H. reflexivity. Qed.
+
 (* without options everything is printed *)
 Lemma dump_keep_all e : dump_keep (mkdo None None 0 0) e = true.
 Proof. unfold dump_keep. cbn [do_key_prefix do_val_prefix do_key_min do_val_min]. replace (len (fst e) <? 0) with false by lia. replace (len (snd e) <? 0) with false by lia. reflexivity. Qed.
